@@ -240,6 +240,36 @@ def check_maps(ctx, tu, info):
                     held = 'callbackListListMutex' in info.held_names(f, w['pos'])
                     ctx.ob('C03.L1', f, 'callbackListList slot is created with callbackListListMutex held', held,
                            detail='assignment at %s' % f.nloc(w['node']), where=f.nloc(w['node']), key_detail='slot write')
+                    # double-checked creation: the emptiness of the slot is (re-)tested inside the critical section that creates it
+                    from .listrules import edge_dominates
+                    si = info.scopes(f)
+                    rechecked = False
+                    for bid, blk in f.blocks.items():
+                        cnd = blk.get('cond')
+                        if not cnd or len(blk['succ']) != 2:
+                            continue
+                        n = f.strip_all_casts(cnd)
+                        neg = False
+                        while f.nodes[n]['cls'] == 'UnaryOperator' and f.nodes[n].get('op') == '!':
+                            neg = not neg
+                            n = f.strip_all_casts(f.kids(n)[0])
+                        tested = None
+                        for d in [n] + f.descendants(n):
+                            if f.nodes[d]['cls'] == 'MemberExpr' and f.decl(d)['kind'] == 'field' and f.decl(d)['name'] == 'callbackListList':
+                                tested = d
+                        if tested is None:
+                            continue
+                        role = 'true' if neg else 'false'      # edge on which the slot is empty
+                        if not edge_dominates(f, bid, role, w['pos']):
+                            continue
+                        a = {x for x in si.held_must_full(f.pos(cnd)) if x[0] == 'lock' and mutex_name(x[1]) == 'callbackListListMutex'}
+                        b = {x for x in si.held_must_full(w['pos']) if x[0] == 'lock' and mutex_name(x[1]) == 'callbackListListMutex'}
+                        if a & b:
+                            rechecked = True
+                    ctx.ob('C03.L3', f, 'a per-prototype list is created only after its slot was found empty inside the same critical section', rechecked,
+                           detail='the creating assignment at %s relies on a test made before callbackListListMutex was taken: two threads racing on the first use of a '
+                                  'prototype both create a list and the second replaces the first (its callbacks are lost)' % f.nloc(w['node']),
+                           where=f.nloc(w['node']), key_detail='slot re-check')
 
 
 def mutex_id(fn, p):
